@@ -18,7 +18,8 @@ Flows == {"authorize", "authorizeHint", "authorizeUnregistered", "callbackCode",
           "deviceAuthorize", "pollApproved", "pollPending", "userinfoOpaque", "userinfoJWT", "introspectOpaque", "introspectJWT",
           "revokeOpaque", "revokeJWT", "revokeRefresh", "endSession", "endSessionNoHint"}
 MaxK == IF Tier = "quick" THEN 12 ELSE 16
-Kinds == {"error", "deadline", "oidc", "dupcode", "typednil"}   \* typednil: look-ups answer `return obj, err` with a nil pointer inside the interface
+Kinds == {"error", "deadline", "canceled", "oidc", "dupcode", "typednil"}   \* canceled: the error wraps context.Canceled while the request itself is alive
+\*   \* typednil: look-ups answer `return obj, err` with a nil pointer inside the interface
 
 Groups == Flows
 CasesOf(f) == {[flow |-> f, router |-> r, k |-> k, fkind |-> fk] : r \in {"P", "L"}, k \in 1..MaxK, fk \in Kinds}
